@@ -806,6 +806,17 @@ def generate(seed, prop, tier):
                 if e["id"] not in pool_ids:
                     pool_ids.append(e["id"])
                 declared.setdefault(e["id"], []).append(e)
+            if r.chance(0.25):
+                # ... followed, in the same document, by a different entity whose entityID is the same URI padded with
+                # white space (legal for xs:anyURI, seen in real feeds): two entities, neither replaces the other
+                nent += 1
+                tw = gen_entity(r, nent, None)
+                tw["id"] = r.pick(ents)["id"].rstrip() + r.pick([" ", "  "])
+                if tw["id"] not in [x["id"] for x in ents]:
+                    ents.append(tw)
+                    if tw["id"] not in pool_ids:
+                        pool_ids.append(tw["id"])
+                    declared.setdefault(tw["id"], []).append(tw)
             wrapper = "entity" if len(ents) == 1 and r.chance(0.5) else "entities"
             doc = {"wrapper": wrapper, "name": "fed%d" % step, "entities": ents if wrapper == "entities" else ents[:1]}
             if wrapper == "entities" and r.chance(0.3):
